@@ -1,4 +1,5 @@
 import PycModel.Parser.Stmt
+import PycModel.Properties.C09
 /-!
 # C11 — coordinates point at real source locations
 
@@ -29,5 +30,30 @@ theorem lex_error_location (inf : Array EvInfo) (file0 : String) (i : Nat) (e : 
     (h : inf[i]? = some e) :
     finish inf file0 (.lexError i) = .parseError (.coord ⟨e.file, e.line, some e.col⟩) e.msg := by
   simp [finish, h]
+
+
+/-! ## composition with the scanner's position exactness (`C09.scan_position_exact`) -/
+
+theorem infos_index (pre post : List Ev) (e : Ev) (s : SEv) (i : EvInfo) (h : stripEv e = some (s, i)) :
+    (infos (pre ++ e :: post))[(strip pre).length]? = some i := by
+  simp [infos, strip, List.filterMap_append, List.filterMap_cons, h]
+
+open LexPos in
+/-- **A resolved coordinate is a true source position.** For every text: if a coordinate carries
+the index of a token that the scanner returned before any error report, then its resolved line
+and column are that token's, and that token is position-exact in the text - its value is spelled
+at its offset, its column counts from the last newline, its line is the `#line`-re-based line. -/
+theorem coord_is_true_token_position (text : List Char) (file : String)
+    (pre : List Ev) (t : Token) (off : Nat) (f : String) (post : List Ev)
+    (h : scan Generated.lexCfg (fun _ => false) text file = pre ++ .tok t off f :: post)
+    (hpre : ∀ e ∈ pre, isErr e = false) (c : Coord) (hc : c.line = (strip pre).length) :
+    (resolveCoord (infos (scan Generated.lexCfg (fun _ => false) text file)) file c).line = t.line ∧
+    (resolveCoord (infos (scan Generated.lexCfg (fun _ => false) text file)) file c).col = some t.col ∧
+    Exact text (baseFrom (1, 0) pre).1 (baseFrom (1, 0) pre).2 t off := by
+  have hx := C09.scan_position_exact (fun _ => false) text file pre t off f post h hpre
+  have hi := infos_index pre post (.tok t off f) _ _ rfl
+  rw [← h, ← hc] at hi
+  have := resolved_position_is_event_position _ file c _ hi
+  exact ⟨this.1, this.2, hx⟩
 
 end PycModel.C11
